@@ -137,6 +137,53 @@ func runC01(o *Out, r *rand.Rand) {
 		g := genMessage(r, thorough())
 		c01Message(o, g)
 	}
+	// every total frame length in a range covering all levels of the encoder's buffer pool (and
+	// beyond its largest level): both encoders, round trip – no model line, the frames are long
+	hi := 4700
+	if thorough() {
+		hi = 9000
+	}
+	for L := 34; L <= hi; L++ {
+		g := genMsg{path: "p", method: "m", payload: make([]byte, L-12-4-(4+1)-(4+1)-4-4)}
+		g.hdr[0] = protocol.MagicNumber()
+		g.hdr[3] = byte(L%5) << 4
+		for i := range g.payload {
+			g.payload[i] = byte(L + i)
+		}
+		c01Lengths(o, g, L)
+	}
+}
+
+func c01Lengths(o *Out, g genMsg, L int) {
+	o.Eval(fmt.Sprintf("frame length %d", L), true)
+	o.Count("frame-length-sweep")
+	var frame []byte
+	func() {
+		defer func() {
+			if p := recover(); p != nil {
+				o.Violate("c01.encode.panic", fmt.Sprintf("Encode of a %d-byte frame panicked: %v", L, p), g.replay())
+			}
+		}()
+		dp := g.toMessage().EncodeSlicePointer()
+		frame = append([]byte(nil), (*dp)...)
+		protocol.PutData(dp)
+	}()
+	var buf bytes.Buffer
+	if _, err := g.toMessage().WriteTo(&buf); err != nil {
+		o.Violate("c01.writeto.error", "WriteTo failed: "+err.Error(), g.replay())
+		return
+	}
+	if frame == nil {
+		return
+	}
+	if len(frame) != L || !bytes.Equal(frame, buf.Bytes()) {
+		o.Violate("c01.encoders-disagree", fmt.Sprintf("the two encoders produce different bytes for a %d-byte frame (pooled: %d bytes)", L, len(frame)), g.replay())
+		return
+	}
+	m := protocol.NewMessage()
+	if err := m.Decode(bytes.NewReader(frame)); err != nil || !bytes.Equal(m.Payload, g.payload) || m.ServicePath != g.path || m.ServiceMethod != g.method || *m.Header != protocol.Header(g.hdr) {
+		o.Violate("c01.roundtrip.error", fmt.Sprintf("a %d-byte frame does not decode back to the message (err=%v)", L, err), g.replay())
+	}
 }
 
 func c01Message(o *Out, g genMsg) {
